@@ -99,8 +99,10 @@ CHECKS['C09'] = dict(
 CHECKS['C10'] = dict(
     text='Machine-checked: C10_at_most_once (in every successful build the dynamic events - call/bind/eval - have pairwise distinct paths and each has its result recorded), '
          'C10_memo_invariant (the state-extension invariant for every evaluation step: recorded, never overwritten, in-progress nodes not completed by nested evaluation, fresh distinct events), '
-         'C10_same_object (any later evaluation of the same path returns the recorded object and changes nothing). Partial: "exactly once" = at-most-once (theorem) + every live node is reached '
-         '(correspondence: the model logs the same calls in the same order as the implementation); key-order independence and "overwritten nodes never run" are decided by the correspondence and the oracles.',
+         'C10_same_object (any later evaluation of the same path returns the recorded object and changes nothing). C10_exactly_once: a successful build of ANY well-formed tree (unique keys, lists numbered from 0: C10_wellformed_trees) '
+         'has a recorded result for every node and has run every dynamic node of the evaluated tree - with at-most-once: exactly once, for every graph of references and order of keys. '
+         'Partial: key-order independence of the VALUES and "overwritten nodes never run" are decided by the correspondence (the model logs the same calls in the same order as the '
+         'implementation) and the oracles.',
     design='4 (C10)',
     technique='Coq invariant proof over the evaluator model; sampled vm_compute correspondence of values, identities and call order; counting / permutation / overwrite oracles for replays')
 CHECKS['C14'] = dict(
